@@ -188,7 +188,8 @@ if __name__ == "__main__":
                        "a call of a listed function that is in no table makes the path unbalanced")
     ctx.assumptions = [
         "closing any wrapper of the raw connection (pnet, secure, tracing conn) closes the raw connection; transportConn.Close closes the muxed conn and Dones the scope; Stream.Reset on a registered stream releases its scope (read from upgrader/conn.go, swarm_stream.go; exercised by the fault harness)",
-        "goroutine termination and OS descriptors are observed by the fault harness, not proved; QUIC/WebSocket/WebRTC paths are not modelled",
+        "goroutine termination and OS descriptors are observed by the fault harness, not proved; the fault harness drives TCP (noise/tls, psk) and real hosts; the QUIC, WebSocket, WebTransport, WebRTC, tcpreuse and relay-client paths are covered by the path theorem only",
+        "in WebRTC setupConnection/dial the deferred `if err != nil { PeerConnection.Close() }` is interpreted with err != nil <=> the function returns an error (named result) and PeerConnection != nil <=> newWebRTCConnection succeeded",
         "swarm Close: the registry protocol of Swarm.conns / Conn.streams (add under the lock refuses when the map is nil; close takes the map and releases every item) is modelled as an LTS in coq/c04/Close.v, one step per critical section / release; the mutexes themselves, closeOnce and the refs WaitGroup are not modelled (Close returning only after refs is zero is observed by the harness); listeners follow the same protocol and are observed by the host-Close cases (kind 4), not modelled",
     ]
     spec = dict(
